@@ -871,7 +871,8 @@ class PythonTypesBackend(CodeBackend):
 
         all_omitted_callers = child_omitted_callers | parent_omitted_callers
         if len(all_omitted_callers) != 0:
-            self.emit('{}._permissioned_tagmaps = {}'.format(class_name, all_omitted_callers))
+            self.emit('{}._permissioned_tagmaps = {{{}}}'.format(
+                class_name, ', '.join(repr(caller) for caller in sorted(all_omitted_callers))))
         for omitted_caller in sorted(all_omitted_callers | {None}, key=str):
             is_public = omitted_caller is None
             tagmap_name = '_tagmap' if is_public else '_{}_tagmap'.format(omitted_caller)
